@@ -15,6 +15,12 @@ AREAS = {
                 'increasing indices, delay within the bound), the other half violate it (delays up to 100 s, non-monotone reception, '
                 'duplicate indices, timestamps 0 / u32::MAX); non-trivial = tagged branch (reordered, ctrl, missing lifecycle, several ECUs...)',
     },
+    'chn': {
+        'shrink_sep': ' ', 'head_sep': '| ',
+        'rule': 'chains of 1-5 (thorough: 1-8) Cursor volumes of length 0/1/0-11 (empty volumes in a third of the positions) under scripts of '
+                '1-14 (thorough: 1-40) operations read(0..8) / seek(Start 0..total+3) / seek(Current -total-3..total+2) / seek(End -total-2..+3); '
+                'non-trivial = tagged (empty volume, several volumes, seek past the end, negative target, data returned)',
+    },
     'dp': {
         'shrink_sep': ';', 'head_sep': None,
         'rule': 'byte streams built from items: well-formed messages (all 32 combinations of the optional header parts, both byte orders, '
@@ -45,6 +51,11 @@ PROPS = {
         'id': 'C10', 'area': 'srt',
         'theorems': ['Props.C10_perm', 'Props.C10_sorted', 'Props.C10_threshold_ge_min'],
         'n_quick': 4000, 'n_thorough': 150000,
+    },
+    'C20': {
+        'id': 'C20', 'area': 'chn',
+        'theorems': ['Props.C20_chain_refines', 'Props.C20_read_progress'],
+        'n_quick': 5000, 'n_thorough': 200000,
     },
     'C05': {
         'id': 'C05', 'area': 'lc',
